@@ -79,6 +79,31 @@ def opAsmCall (j : Json) : R Json := do
                      ("written_is_observed", Json.bool same),
                      ("written", if (optFld j "echo").isSome then jOpt (fun ls => jChars ls.flatten) o.written else Json.null)]
 
+/-- op `asm_fs`: the call in a directory given as parallel lists `names`, `contents` (every file the harness put
+there: the listed inputs under the argument strings handed to the real call, and all their neighbours), the
+argument list `inputs` (names; a name without an entry is missing) and the output name `out`.  Answers how the
+call ends, whether the lines written equal `observed`, and which names read differently afterwards. -/
+def opAsmFs (j : Json) : R Json := do
+  let names ← listF asStr j "names"
+  let contents ← listF asFile j "contents"
+  let inputs ← listF asStr j "inputs"
+  let out ← asStr (← fld j "out")
+  let d : Fs String := names.zip contents
+  let (o, after) := assembleIn d inputs out
+  let res : Json := match o.result with
+    | .returned => Json.mkObj [("kind", Json.str "returned")]
+    | .fileNotFound m => Json.mkObj [("kind", Json.str "FileNotFoundError"), ("missing", jStrs m)]
+    | .indexError => Json.mkObj [("kind", Json.str "IndexError")]
+  let obs ← match optFld j "observed" with
+    | some o => some <$> asChars o
+    | none => pure none
+  let same : Bool := match o.written, obs with
+    | some ls, some t => ls.flatten == t
+    | _, _ => false
+  let changed := (out :: names).eraseDups.filter (fun q => after.read q != d.read q)
+  return Json.mkObj [("result", res), ("written_none", Json.bool o.written.isNone),
+                     ("written_is_observed", Json.bool same), ("changed", jStrs changed)]
+
 /-- op `asm_spaces`: all code points the model treats as Python white space -/
 def opAsmSpaces (_ : Json) : R Json := do
   let mut acc : Array Nat := #[]
@@ -89,7 +114,7 @@ def opAsmSpaces (_ : Json) : R Json := do
 
 namespace Assemble
 def ops : List (String × (Json → R Json)) :=
-  [("asm_lines", opAsmLines), ("asm_call", opAsmCall), ("asm_spaces", opAsmSpaces)]
+  [("asm_lines", opAsmLines), ("asm_call", opAsmCall), ("asm_fs", opAsmFs), ("asm_spaces", opAsmSpaces)]
 end Assemble
 
 end Driver
